@@ -601,6 +601,8 @@ func init() {
 			{Name: "import-graphs", Count: func(string) int { return c15F3Count() }, Run: func(_ string, idx int, r *Result) { c15F3(idx, r) }},
 			{Name: "module-and-item-names-that-run-together", Count: func(string) int { return c15F7Count() }, Run: func(_ string, idx int, r *Result) { c15F7(idx, r) }},
 			{Name: "one-name-imported-twice", Count: func(string) int { return c15F8Count() }, Run: func(_ string, idx int, r *Result) { c15F8(idx, r) }},
+			{Name: "one-module-imported-along-several-paths", Count: func(string) int { return c15F9Count() }, Run: func(_ string, idx int, r *Result) { c15F9(idx, r) }},
+			{Name: "function-literal-of-another-module-calls-back", Count: func(string) int { return c15F10Count() }, Run: func(_ string, idx int, r *Result) { c15F10(idx, r) }},
 			{Name: "chains-main-b-a", Count: func(string) int { return c15F6Count() }, Run: func(_ string, idx int, r *Result) { c15F6(idx, r) }},
 			{Name: "ordered-import-lists-over-five-modules", Count: func(string) int { return c15F5Count() }, Run: func(_ string, idx int, r *Result) { c15F5(idx, r) }},
 		}}
